@@ -399,7 +399,7 @@ enum SystemClauseType {
     StoreGlobalVar,
     #[strum_discriminants(strum(props(Arity = "3", Name = "$stream_property")))]
     StreamProperty,
-    #[strum_discriminants(strum(props(Arity = "2", Name = "$set_stream_position")))]
+    #[strum_discriminants(strum(props(Arity = "3", Name = "$set_stream_position")))]
     SetStreamPosition,
     #[strum_discriminants(strum(props(Arity = "2", Name = "$inference_level")))]
     InferenceLevel,
